@@ -289,7 +289,7 @@ def group_width(kinds: list[str], al: Any, sl: Any) -> int | None:
 def seq_of_groups(I: Interp, n: Any, width: int | None, elem: Any, lst: VList) -> Any:
     if lst.items is not None:
         return cat([elem(z3.IntVal(j)) for j in range(len(lst.items))])
-    return loops.Chunks(I, n, width, elem, "spec").seq
+    return loops.get_chunks(I, n, width, elem, "spec").seq
 
 
 # --------------------------------------------------------------------------- ranges
